@@ -206,6 +206,17 @@ func cellString(v interface{}) (s string, ok bool, err error) {
 	return "", false, fmt.Errorf("cannot scan %T", v)
 }
 
+// Named types WITHOUT Valuer / Scanner: gorm sees only their reflect.Kind (an enum-like string or
+// integer, a named byte slice such as json.RawMessage or net.IP). They reach Statement.AddVar's and
+// the field setters' reflection branches instead of the type-switch cases of the built-in types.
+type (
+	Blob   []byte
+	Status string
+	Level  int32
+	Count  uint16
+	Ratio  float64
+)
+
 // JS is the struct used under serializer:json and serializer:gob.
 type JS struct {
 	A int64
@@ -245,6 +256,10 @@ var scalarKinds = []kind{
 	{"float32", tOf(float32(0)), "float", "plain", nil}, {"float64", tOf(float64(0)), "float", "plain", nil},
 	{"bool", tOf(false), "bool", "plain", nil}, {"string", tOf(""), "string", "plain", nil},
 	{"[]byte", bytesType, "bytes", "plain", nil}, {"time.Time", timeType, "time", "plain", nil},
+	// (appended: the positions above are referred to by index)
+	{"Blob", tOf(Blob(nil)), "bytes", "plain", nil}, {"[]byte", bytesType, "bytes", "plain", nil},
+	{"Status", tOf(Status("")), "string", "plain", nil}, {"Level", tOf(Level(0)), "int", "plain", nil}, {"Count", tOf(Count(0)), "uint", "plain", nil},
+	{"Ratio", tOf(Ratio(0)), "float", "plain", nil},
 }
 
 var ptrKinds = []kind{
@@ -255,6 +270,8 @@ var ptrKinds = []kind{
 	{"*float32", ptrTo(float32(0)), "float", "ptr", nil}, {"*float64", ptrTo(float64(0)), "float", "ptr", nil},
 	{"*bool", ptrTo(false), "bool", "ptr", nil}, {"*string", ptrTo(""), "string", "ptr", nil},
 	{"*time.Time", ptrTo(time.Time{}), "time", "ptr", nil},
+	{"*[]byte", ptrTo([]byte(nil)), "bytes", "ptr", nil}, {"*Blob", ptrTo(Blob(nil)), "bytes", "ptr", nil},
+	{"*Status", ptrTo(Status("")), "string", "ptr", nil}, {"*Level", ptrTo(Level(0)), "int", "ptr", nil},
 }
 
 var nullKinds = []kind{
@@ -330,6 +347,10 @@ func classOf(t reflect.Type, serializer string) (class, wrap string) {
 		return "bytes", "plain"
 	}
 	switch t.Kind() {
+	case reflect.Slice:
+		if t.Elem().Kind() == reflect.Uint8 { // a named byte slice
+			return "bytes", "plain"
+		}
 	case reflect.Int, reflect.Int8, reflect.Int16, reflect.Int32, reflect.Int64:
 		return "int", "plain"
 	case reflect.Uint, reflect.Uint8, reflect.Uint16, reflect.Uint32, reflect.Uint64:
@@ -468,6 +489,9 @@ func canonGo(l *leaf, fv reflect.Value) string {
 	case "string", "tagged":
 		return "s:" + fv.String()
 	case "bytes":
+		if fv.IsNil() {
+			return "NULL" // a nil byte slice is NULL; an empty non-nil one is a value of length zero
+		}
 		return "b:" + hex.EncodeToString(fv.Bytes())
 	case "time":
 		return canonTime(fv.Interface().(time.Time))
@@ -512,8 +536,6 @@ func canonRaw(l *leaf, cell interface{}) string {
 			return "g:null"
 		case "intlist":
 			return "il:[]"
-		case "bytes":
-			return "b:" // nil and empty byte slices are equal
 		}
 		return "NULL"
 	}
@@ -566,13 +588,25 @@ func canonRaw(l *leaf, cell interface{}) string {
 		if isStr {
 			return "s:" + str
 		}
+		if rv.Kind() == reflect.String { // a named string type in a map
+			return "s:" + rv.String()
+		}
 	case "tagged":
 		if isStr && strings.HasPrefix(str, "t:") {
 			return "s:" + str[2:]
 		}
 	case "bytes":
 		if isStr {
+			if b, isB := cell.([]byte); isB && b == nil {
+				return "NULL"
+			}
 			return "b:" + hex.EncodeToString([]byte(str))
+		}
+		if rv.Kind() == reflect.Slice && rv.Type().Elem().Kind() == reflect.Uint8 { // a named byte slice in a map
+			if rv.IsNil() {
+				return "NULL"
+			}
+			return "b:" + hex.EncodeToString(rv.Bytes())
 		}
 	case "time":
 		if t, ok := cell.(time.Time); ok {
